@@ -1,4 +1,5 @@
 import O4.Lemmas.C10
+import O4.Model.C10Deadline
 import O4.Lemmas.Obfs4Chunk
 import O4.Props.C03
 import O4.Props.C13
@@ -439,64 +440,69 @@ obligations — `no_panic`, `buffers_bounded`, `progress`, `deadline_discipline`
 transport in one place (each is audited here like any other property theorem), and what was
 missing is proved. -/
 
-/-! ## handshake deadline wrappers (obfs2, obfs3, obfs4 client, ScrambleSuit client, SOCKS5) -/
+/-! ## handshake deadline wrappers (obfs2, obfs3, obfs4 client, ScrambleSuit client, SOCKS5)
 
-/-- what a handshake does to its `net.Conn`, as far as the deadline discipline is concerned -/
-inductive ConnOp
-  | arm        -- `SetDeadline(now + timeout)`
-  | clear      -- `SetDeadline(time.Time{})`
-  | read
-  | write
-deriving DecidableEq, Repr
+The verdict functions `ddPlain` / `ddSocks` / `ddSrv` of `O4/Model/C10Deadline.lean` are what the
+harness evaluates (through the driver) on the trace of every real handshake call. -/
 
 /-- `newObfs2ClientConn` / `newObfs2ServerConn` (obfs2.go:158-196), `newObfs3ClientConn` /
     `newObfs3ServerConn` (obfs3.go:137-175), `newObfs4ClientConn` (obfs4.go:318-337) and
     `newScrambleSuitClientConn` (conn.go:515-534) are the same six lines: arm the deadline, run
     the handshake proper (`body`: the reads and writes it performs, and whether it succeeded),
     clear the deadline **only on success**, return the error otherwise (the caller closes). -/
-def wrapHandshake (body : List ConnOp × Bool) : List ConnOp × Bool :=
-  (ConnOp.arm :: body.1 ++ (if body.2 then [ConnOp.clear] else []), body.2)
+def wrapHandshake (body : List Op × Bool) : List Op × Bool :=
+  (Op.arm :: body.1 ++ (if body.2 then [Op.clear] else []), body.2)
 
 /-- `socks5.Handshake` (socks5.go:127-164): arm, `defer` the clear — it runs on every return -/
-def wrapSocks (body : List ConnOp × Bool) : List ConnOp × Bool :=
-  (ConnOp.arm :: body.1 ++ [ConnOp.clear], body.2)
+def wrapSocks (body : List Op × Bool) : List Op × Bool :=
+  (Op.arm :: body.1 ++ [Op.clear], body.2)
 
 /-- the handshake proper only reads and writes -/
-def BodyPlain (body : List ConnOp × Bool) : Prop := ∀ op ∈ body.1, op = .read ∨ op = .write
+def BodyPlain (body : List Op × Bool) : Prop := ∀ op ∈ body.1, op = .read ∨ op = .write
 
-/-- the three clauses of the property text, for a trace of conn operations and a verdict:
-    a deadline is armed before the first `Read`; on success the last deadline operation is the
-    clear; failure is reported to the caller (the verdict is what the wrapper returns) -/
-def DeadlineDiscipline (t : List ConnOp × Bool) (bodyOk : Bool) : Prop :=
-  (∃ rest, t.1 = ConnOp.arm :: rest) ∧
-  (t.2 = true → ∃ pre, t.1 = pre ++ [ConnOp.clear] ∧ ConnOp.clear ∉ pre) ∧
-  t.2 = bodyOk
+private theorem dls_plain (l : List Op) (h : ∀ op ∈ l, op = Op.read ∨ op = Op.write) : dls l = [] := by
+  induction l with
+  | nil => rfl
+  | cons o r ih =>
+    have hr := ih (fun op hm => h op (by simp [hm]))
+    rcases h o (by simp) with rfl | rfl <;> simpa [dls, Op.isDeadline] using hr
 
-private theorem clear_not_in_plain (l : List ConnOp) (h : ∀ op ∈ l, op = ConnOp.read ∨ op = ConnOp.write) :
-    ConnOp.clear ∉ ConnOp.arm :: l := by
-  intro hm
-  simp only [List.mem_cons] at hm
-  rcases hm with h0 | hm
-  · cases h0
-  · rcases h _ hm with h1 | h1 <;> cases h1
+private theorem dls_append (a b : List Op) : dls (a ++ b) = dls a ++ dls b := by
+  simp [dls]
 
-/-- **deadline discipline of the six-line wrappers**, for every handshake body -/
-theorem handshake_deadline_discipline (body : List ConnOp × Bool) (hb : BodyPlain body) :
-    DeadlineDiscipline (wrapHandshake body) body.2 := by
-  refine ⟨⟨_, rfl⟩, fun hok => ?_, rfl⟩
-  have hok' : body.2 = true := hok
-  refine ⟨ConnOp.arm :: body.1, by simp [wrapHandshake, hok'], clear_not_in_plain _ hb⟩
+/-- **deadline discipline of the six-line wrappers**, for every handshake body: the arm is the
+    first operation (before any `Read`), on success the deadline operations are exactly arm and,
+    last, the clear; on failure the error verdict is returned (and nothing re-arms) -/
+theorem handshake_deadline_discipline (body : List Op × Bool) (hb : BodyPlain body) :
+    ddPlain (wrapHandshake body).1 (wrapHandshake body).2 = true ∧ (wrapHandshake body).2 = body.2 := by
+  refine ⟨?_, rfl⟩
+  have hd := dls_plain body.1 hb
+  have h1 : dls (Op.arm :: body.1) = [Op.arm] := by
+    show dls ([Op.arm] ++ body.1) = _
+    rw [dls_append, hd]; rfl
+  have h2 : dls (Op.arm :: (body.1 ++ [Op.clear])) = [Op.arm, Op.clear] := by
+    rw [← List.cons_append, dls_append, h1]; rfl
+  cases hok : body.2
+  · simp [ddPlain, wrapHandshake, hok, h1]
+  · simp [ddPlain, wrapHandshake, hok, h2]
 
-/-- … and of `socks5.Handshake` (which additionally clears on failure) -/
-theorem socks5_deadline_discipline (body : List ConnOp × Bool) (hb : BodyPlain body) :
-    DeadlineDiscipline (wrapSocks body) body.2 ∧
-    ∃ pre, (wrapSocks body).1 = pre ++ [ConnOp.clear] := by
-  refine ⟨⟨⟨_, rfl⟩, fun _ => ⟨ConnOp.arm :: body.1, by simp [wrapSocks], clear_not_in_plain _ hb⟩, rfl⟩,
-    ⟨ConnOp.arm :: body.1, by simp [wrapSocks]⟩⟩
+/-- … and of `socks5.Handshake` (which also clears on failure) -/
+theorem socks5_deadline_discipline (body : List Op × Bool) (hb : BodyPlain body) :
+    ddSocks (wrapSocks body).1 (wrapSocks body).2 = true ∧ (wrapSocks body).2 = body.2 := by
+  refine ⟨?_, rfl⟩
+  have hd := dls_plain body.1 hb
+  have h1 : dls (Op.arm :: body.1) = [Op.arm] := by
+    show dls ([Op.arm] ++ body.1) = _
+    rw [dls_append, hd]; rfl
+  have h2 : dls (Op.arm :: (body.1 ++ [Op.clear])) = [Op.arm, Op.clear] := by
+    rw [← List.cons_append, dls_append, h1]; rfl
+  simp [ddSocks, wrapSocks, h2]
 
-example : DeadlineDiscipline (wrapHandshake ([.write, .read, .read], true)) true :=
-  handshake_deadline_discipline _ (by intro op h; simp at h; rcases h with rfl | rfl | rfl <;> simp)
+example : ddPlain (wrapHandshake ([.write, .read, .read], true)).1 true = true := by decide
 example : (wrapHandshake ([.write, .read], false)).1 = [.arm, .write, .read] := by decide
+/-- a trace that forgets the clear, and one that reads before arming, get verdict `false` -/
+example : ddPlain [.arm, .write, .read] true = false ∧ ddPlain [.read, .arm, .clear] true = false := by
+  decide
 
 /-! ## obfs4 server (`WrapConn`): the event machine of `O4/Model/Obfs4Server.lean` -/
 
@@ -535,6 +541,31 @@ theorem obfs4_server_deadline_discipline (P : Handshake.Prims) (F : Obfs4Server.
       (w = [] ∨ w = [.setReadDeadline D] ∨ w = [.setReadDeadline D, .close] ∨ w = [.close]
         ∨ ∃ b, w = [.setDeadline none, .write b]) :=
   C03.deadline_discipline P F c f evs
+
+/-- the wire-visible outputs of the server machine in the trace alphabet -/
+def srvOp : Obfs4Server.Out → Option Op
+  | .setDeadline (some _) => some .arm
+  | .setDeadline none => some .clear
+  | .setReadDeadline _ => some .rarm
+  | .write _ => some .write
+  | .close => some .close
+  | .returnErr _ => none
+  | .returnOk => none
+
+/-- … hence every run of the server machine, finished or not, has verdict `true` for the
+    outcome its shape announces (`ok` iff it cleared the deadline): this is the statement the
+    harness checks on the real `WrapConn` with the reads taken out -/
+theorem obfs4_server_deadline_verdict (P : Handshake.Prims) (F : Obfs4Server.Factory)
+    (c : Obfs4Server.Conn) (f : RF.Filter) (evs : List Obfs4Server.Ev) :
+    ∃ ok, ddSrv ((Obfs4Server.wire (Obfs4Server.run P F c f evs).2).filterMap srvOp) ok = true := by
+  obtain ⟨w, hw, hs⟩ := C03.deadline_discipline P F c f evs
+  rw [hw]
+  rcases hs with rfl | rfl | rfl | rfl | ⟨b, rfl⟩
+  · exact ⟨false, by simp [srvOp, ddSrv]⟩
+  · exact ⟨false, by simp [srvOp, ddSrv]⟩
+  · exact ⟨false, by simp [srvOp, ddSrv]⟩
+  · exact ⟨false, by simp [srvOp, ddSrv]⟩
+  · exact ⟨true, by simp [srvOp, ddSrv]⟩
 
 /-! ## obfs4 data phase: progress at the `Read` level (with `obfs4_data_progress` above) -/
 
